@@ -37,6 +37,22 @@ Proof.
 Qed.
 Print Assumptions C01_kv_refines_map_bytes.
 
+(* ... and for integer-key databases (IWDB_VNUM64_KEYS), again without any hypothesis on the comparator *)
+Theorem C01_kv_refines_map_intkeys :
+  forall (upd : value -> value -> option value) (ops : list (op key value)) (st : nat * chain key value),
+    NodeInv key value (cmp_of vnummode) NIDX (snd st) ->
+    let '(st', outs) := run key value (cmp_of vnummode) NIDX NPIVOT upd st ops in
+    let '(l', souts) := spec_run key value (cmp_of vnummode) upd (flat key value (snd st)) ops in
+    flat key value (snd st') = l' /\ outs = souts /\ NodeInv key value (cmp_of vnummode) NIDX (snd st').
+Proof.
+  intros upd. apply kv_refines_map.
+  - exact vnum_cmp_lt_eq.
+  - exact vnum_cmp_antisym.
+  - exact vnum_cmp_trans.
+  - unfold NPIVOT, NIDX, SPLIT_PIVOT, KVBLK_IDXNUM. vm_compute. lia.
+Qed.
+Print Assumptions C01_kv_refines_map_intkeys.
+
 (* plain byte keys compare equal only when identical *)
 Theorem C01_plain_keys_eq_iff_identical : forall a b : key, cmp_of plain a b = Eq <-> fst a = fst b.
 Proof. exact plain_cmp_eq_iff. Qed.
